@@ -20,7 +20,9 @@ handler loop gives BiStreamRequestHandler::new both halves of the same accept_bi
 handler per accepted stream; in do_handle the service is invoked exactly once, on no cycle, with the
 request decoded from the handler's own receive stream, and the response written to the handler's own
 send stream is the output of that invocation. Frame order agreement between the four codecs is C07's
-sibling rule, re-evaluated here.
+sibling rule, re-evaluated here. Content integrity on the way: nothing in anemo::network /
+anemo::middleware calls a mutating Request/Response method (classified from the method signatures) or
+writes a header field, except on a message the library itself has just created.
 """
 TRUSTED = ["QUIC stream reliability/ordering under datagram loss, reordering, duplication (quinn)", "tower ServiceExt::oneshot calls the service once"]
 NOT_DECIDED = ["behaviour under datagram loss/reordering/duplication (inside quinn)", "interleavings of concurrent handlers (they share no mutable state by the ownership rules above)",
@@ -240,3 +242,52 @@ def run(cx):
         ob.count(sum(x.evals for x in w))
         bad = [v for x in w for v in x.violations]
         ob.require(len(w) == 5 and not bad, "codec-siblings", "codec sibling / closed-world rules refuted: " + "; ".join(v.msg for v in bad)[:300], WIRE)
+
+    with cx.ob("C02.7", "R-CALLERS", "the transport never rewrites message content: no call to a mutating Request/Response method (classified by signature) and no write to a header field anywhere in anemo::network / anemo::middleware, except on a message the library itself has just created") as ob:
+        REQ, RSP = "anemo::types::request::Request", "anemo::types::response::Response"
+        mutators = {}
+        n_methods = 0
+        for p, b in prog.bodies.items():
+            for T in (REQ, RSP):
+                if p.startswith(T + "::") and b.kind != "Closure" and b.argc >= 1:
+                    n_methods += 1
+                    tys = [l.get("ty", "") for l in b.locals[:b.argc + 1]]
+                    recv, ret = tys[1], tys[0]
+                    name = p[len(T) + 2:]
+                    if name == "extensions_mut":
+                        continue                         # extensions never travel on the wire; their write discipline is C01.10
+                    if recv.startswith("&mut " + T + "<"):
+                        mutators[p] = "&mut self"
+                    elif recv.startswith(T + "<") and ret.startswith(T + "<"):
+                        mutators[p] = "self -> Self"
+        ob.floor(n_methods, 40, "Request/Response methods classified")
+        ob.floor(len(mutators), 18, "mutating Request/Response methods (by signature)")
+        ob.set_sample({"mutators": sorted(m.split("::", 3)[-1] + " (" + k + ")" for m, k in mutators.items())})
+        TRANSPORT = ("anemo::network::", "<anemo::network::", "anemo::middleware::", "<anemo::middleware::")
+        FRESH = (REQ + "::new", RSP + "::new", REQ + "::empty", RSP + "::empty")
+        n_bodies = n_calls = 0
+        for p, b in prog.bodies.items():
+            if b.crate != "anemo" or not p.startswith(TRANSPORT):
+                continue
+            n_bodies += 1
+            o = None
+            for c in b.calls():
+                if b.is_cleanup(c.bb) or not c.callee.startswith((REQ + "::", RSP + "::")):
+                    continue
+                n_calls += 1
+                if c.callee not in mutators:
+                    continue
+                o = o or Origins(b)
+                r = strip_identity(arg_origin(c, 0, o))
+                fresh = r[0] == "call" and name_matches(r[1], FRESH)
+                ob.require(fresh, f"content-mutator/{owner_path(prog, b)}/{c.callee.split('::')[-1]}",
+                           f"{p} calls {c.callee.split('::', 3)[-1]} ({mutators[c.callee]}) on {show(r)[:80]}: the transport rewrites a message it did not create", p, b.loc(c.bb))
+        ob.floor(n_bodies, 150, "transport bodies scanned")
+        ob.floor(n_calls, 15, "Request/Response method calls on the transport path")
+        for adt, fields in (("anemo::types::request::RequestHeader", ("route", "headers", "version")), ("anemo::types::response::ResponseHeader", ("status", "headers", "version"))):
+            for f in fields:
+                for (b, bb, kind, _s) in field_accesses(prog, adt, f, crates=A):
+                    if kind in ("write", "mutref") and b.path.startswith(TRANSPORT):
+                        ob.fail("refuted", f"content-field-write/{owner_path(prog, b)}/{f}", f"{b.path} writes/mutably borrows {adt.split('::')[-1]}.{f} on the transport path", b.path, b.loc(bb))
+                    else:
+                        ob.count(1)
